@@ -151,7 +151,7 @@ func (r *FnRun) execGo(fr *Frame, st *State, x *ssa.Go) {
 		r.linearCaptured(fr, st, cv.Bind)
 		for _, b := range cv.Bind {
 			if p, ok := b.(PtrVal); ok && p.Kind == pkCell {
-				p.Cell.escaped = true
+				st.hv["escaped:"+p.Cell.key()] = true
 			}
 		}
 	}
@@ -298,8 +298,10 @@ func (r *FnRun) havocArgs(st *State, args []Val) {
 }
 
 func (r *FnRun) havocEscaped(st *State) {
+	// escapedness is a property of the path (st.hv is copied on fork), not of
+	// the cell object, which sibling paths share
 	for c := range st.cells {
-		if c.escaped {
+		if c.escaped || st.hv["escaped:"+c.key()] {
 			st.cells[c] = r.freshVal(st, c.typ, "esc_"+c.name)
 		}
 	}
@@ -476,7 +478,20 @@ func (r *FnRun) callByContract(fr *Frame, st *State, ct *Contract, names []strin
 	post := &specEnv{st: st, old: pre, vars: vars, pkg: ct.Pkg, what: ct.Name, oldTop: pre.top}
 	for _, cl := range ct.Ensures {
 		post.what = ct.Name + " ensures " + cl.Label
-		r.assume(r.evalBool(cl.E, post))
+		func() {
+			// a clause that mentions the callee's local variables is checked
+			// when the callee is verified but tells its callers nothing
+			defer func() {
+				if x := recover(); x != nil {
+					if sf, ok := x.(specFail); ok && strings.Contains(sf.msg, "unknown identifier") {
+						r.note("%s ensures %s speaks about callee locals; not used at call sites", shortName(ct.Name), cl.Label)
+						return
+					}
+					panic(x)
+				}
+			}()
+			r.assume(r.evalBool(cl.E, post))
+		}()
 	}
 	r.linearResults(st, res, sigResults(sig), where, what)
 	if ct.Trusted || ct.Kind != "func" {
@@ -499,6 +514,25 @@ func (r *FnRun) havocTarget(st *State, e SExpr, env *specEnv) {
 			return
 		}
 	case SCall:
+		if x.Fun == "fields" {
+			// every field of the object an interface or pointer value refers to
+			pre := *env
+			pre.st = env.old
+			v := r.evalSpec(x.Args[0], &pre)
+			if iv, ok := v.(IfaceVal); ok {
+				if iv.Inner == nil {
+					r.note("modifies fields(x) with unknown dynamic type: whole heap havocked")
+					r.havocAll(st)
+					return
+				}
+				v = iv.Inner
+			}
+			if p, ok := v.(PtrVal); ok {
+				r.havocArgs(st, []Val{p})
+				return
+			}
+			return
+		}
 		if x.Fun == "elems" {
 			pre := *env
 			pre.st = env.old
